@@ -103,10 +103,16 @@ impl AnonymizePlugin {
             let message_id_arg = args.next();
             let message_id = match message_id_arg {
                 Some(a) => {
-                    if a.is_big_endian {
-                        u32::from_be_bytes(a.payload_raw.get(0..4).unwrap().try_into().unwrap())
-                    } else {
-                        u32::from_le_bytes(a.payload_raw.get(0..4).unwrap().try_into().unwrap())
+                    // a first argument shorter than 4 bytes carries no service id: keep the msg unmodified
+                    match a.payload_raw.get(0..4).and_then(|b| <[u8; 4]>::try_from(b).ok()) {
+                        Some(b) => {
+                            if a.is_big_endian {
+                                u32::from_be_bytes(b)
+                            } else {
+                                u32::from_le_bytes(b)
+                            }
+                        }
+                        None => 0,
                     }
                 }
                 None => 0,
